@@ -267,7 +267,9 @@ Run(dummy) ==
      /\ Assert(unsound = {}, "B layer returns something the A layer forbids")
      \* vacuity guards: the B model does return chains and (in large configurations) does refuse
      /\ Assert(\E x \in facts : x[2].chains, "vacuous generator configuration: B never returns a chain")
-     /\ Assert(Cardinality(cases) > 100 => \E x \in facts : ~x[2].chains, "vacuous generator configuration: B never refuses")
+     \* (only where refusals are certain: non-CA intermediates, unsupported usages, arbitrary topologies)
+     /\ Assert(Cardinality(cases) > 100 /\ Modes \cap {"kind", "eku", "topo"} # {} => \E x \in facts : ~x[2].chains,
+               "vacuous generator configuration: B never refuses")
      /\ ndJsonSerialize(OutU, SetToSeq(universe))
      /\ ndJsonSerialize(OutC, [i \in 1..Len(caseSeq) |-> CaseOut(caseSeq[i])])
      /\ PrintT(<<"GENERATED", Len(caseSeq), Cardinality(universe),
